@@ -24,7 +24,9 @@ LocalEdits(u) ==
     CASE u.k = "name" -> (IF u.s \in OperatorNames
                           THEN {[u EXCEPT !.s = f] : f \in OtherOp(u.s)}
                           ELSE {[u EXCEPT !.s = u.s \o "2"]})
-      [] u.k = "attr" -> {[u EXCEPT !.s = u.s \o "2"], [u EXCEPT !.s = u.s \o "é"], [u EXCEPT !.s = u.s \o "è"]}
+      \* (é, è: Latin-1; π: beyond Latin-1; a non-BMP letter)
+      [] u.k = "attr" -> {[u EXCEPT !.s = u.s \o "2"], [u EXCEPT !.s = u.s \o "é"], [u EXCEPT !.s = u.s \o "è"],
+                          [u EXCEPT !.s = u.s \o "π"], [u EXCEPT !.s = u.s \o "ρ"]}
       [] u.k = "int"  -> {[u EXCEPT !.n = u.n + 1],                       \* value
                           [u EXCEPT !.n = -(u.n + 1)],                    \* a negative number BY VALUE (not -(n))
                           T("bool", "", IF u.n = 0 THEN 0 ELSE 1, <<>>, <<>>),   \* type: 1 -> True
@@ -32,7 +34,8 @@ LocalEdits(u) ==
                           T("float", ToString(u.n) \o ".0", 0, <<>>, <<>>)}  \* type: 1 -> 1.0
       [] u.k = "bool" -> {[u EXCEPT !.n = 1 - u.n], IntC(u.n)}
       [] u.k = "str"  -> {[u EXCEPT !.s = u.s \o "x"], [u EXCEPT !.s = u.s \o "\"'"],
-                          [u EXCEPT !.s = u.s \o "é"], [u EXCEPT !.s = u.s \o "è"], [u EXCEPT !.s = u.s \o "?"]}
+                          [u EXCEPT !.s = u.s \o "é"], [u EXCEPT !.s = u.s \o "è"], [u EXCEPT !.s = u.s \o "?"],
+                          [u EXCEPT !.s = u.s \o "π"], [u EXCEPT !.s = u.s \o "ρ"], [u EXCEPT !.s = u.s \o "𝛑"]}
       [] u.k = "binop" -> {[u EXCEPT !.s = IF u.s = "+" THEN "-" ELSE "+"]} \cup
                           (IF u.a[1] # u.a[2] THEN {[u EXCEPT !.a = <<u.a[2], u.a[1]>>]} ELSE {})
       [] u.k = "cmp"  -> {[u EXCEPT !.p = <<IF u.p[1] = ">" THEN ">=" ELSE ">">>]} \cup
